@@ -1586,18 +1586,6 @@ func (p *Posix) CompleteMultipartUpload(ctx context.Context, input *s3.CompleteM
 
 	upiddir := filepath.Join(objdir, uploadID)
 
-	err = p.clearStaleAttributes(bucket, object)
-	if err != nil {
-		return nil, fmt.Errorf("clear stale attributes: %w", err)
-	}
-
-	userMetaData := make(map[string]string)
-	objMeta := p.loadObjectMetaData(bucket, upiddir, nil, userMetaData)
-	err = p.storeObjectMetadata(f.File(), bucket, object, objMeta)
-	if err != nil {
-		return nil, err
-	}
-
 	objname := filepath.Join(bucket, object)
 	dir := filepath.Dir(objname)
 	if dir != "" {
@@ -1622,6 +1610,20 @@ func (p *Posix) CompleteMultipartUpload(ctx context.Context, input *s3.CompleteM
 		if err != nil {
 			return nil, fmt.Errorf("create object version: %w", err)
 		}
+	}
+
+	// the attributes of the new object are written only after the object
+	// it replaces has been archived with its own attributes
+	err = p.clearStaleAttributes(bucket, object)
+	if err != nil {
+		return nil, fmt.Errorf("clear stale attributes: %w", err)
+	}
+
+	userMetaData := make(map[string]string)
+	objMeta := p.loadObjectMetaData(bucket, upiddir, nil, userMetaData)
+	err = p.storeObjectMetadata(f.File(), bucket, object, objMeta)
+	if err != nil {
+		return nil, err
 	}
 
 	// if the versioning is enabled, generate a new versionID for the object
@@ -3172,6 +3174,11 @@ func (p *Posix) DeleteObject(ctx context.Context, input *s3.DeleteObjectInput) (
 				err = os.Remove(objpath)
 				if err != nil {
 					return nil, fmt.Errorf("remove obj version: %w", err)
+				}
+				// the promoted version brings its own attributes
+				err = p.clearStaleAttributes(bucket, object)
+				if err != nil {
+					return nil, fmt.Errorf("clear stale attributes: %w", err)
 				}
 
 				ents, err := os.ReadDir(versionPath)
